@@ -24,6 +24,14 @@ func (c *zzCancelCtx) cancel() {
 	}
 }
 
+type zzWrapErr struct {
+	msg string
+	err error
+}
+
+func (e zzWrapErr) Error() string { return e.msg + ": " + e.err.Error() }
+func (e zzWrapErr) Unwrap() error { return e.err }
+
 // ZZ_C16_cancel: the context is cancelled at a chosen point of an execution of
 // three top-level fields (before the call, while resolver k is blocked, right
 // after the last resolver, never); resolvers ignore or observe the context;
@@ -35,7 +43,15 @@ func ZZ_C16_cancel() {
 	// 0 before, 1..n at resolver k, n+1 after last, n+2 never, n+3 during variable coercion
 	point := zzChoice("point", n+4)
 	mutation := zzChoice("op", 2) == 1 // the same three fields as a (serial) mutation
-	observe := zzChoice("observe", 2) == 1
+	obs := zzChoice("observe", 3)
+	observe := obs == 1
+	// ownDeadline: resolver k fails with the error of a narrower context of its
+	// own (a backend call that timed out) while the request's context stays alive:
+	// that is an ordinary field error and belongs in the complete response
+	ownDeadline := obs == 2
+	if ownDeadline {
+		zzAssume(point >= 1 && point <= n)
+	}
 	ctx := &zzCancelCtx{done: make(chan struct{})}
 	reached := make(chan struct{})
 	gate := make(chan struct{}) // never opened
@@ -43,10 +59,13 @@ func ZZ_C16_cancel() {
 	// errFirst: the cancellation becomes visible through Err() before Done() is
 	// signalled (the window every context implementation has between recording
 	// the error and closing the channel), here stretched over the rest of the call
-	errFirst := point >= 1 && point <= n && zzChoice("errfirst", 2) == 1
+	errFirst := !ownDeadline && point >= 1 && point <= n && zzChoice("errfirst", 2) == 1
 	resolver := func(k int) FieldResolveFn {
 		return func(p ResolveParams) (interface{}, error) {
 			calls++
+			if k == point && ownDeadline {
+				return nil, zzWrapErr{"backend call", context.DeadlineExceeded}
+			}
 			if k == point && errFirst {
 				ctx.err = context.Canceled
 				return k, nil
@@ -95,7 +114,7 @@ func ZZ_C16_cancel() {
 	zzAssert(err == nil, "schema")
 	if point == 0 {
 		ctx.cancel()
-	} else if (point <= n+1 || point == n+3) && !errFirst {
+	} else if (point <= n+1 || point == n+3) && !errFirst && !ownDeadline {
 		go func() {
 			<-reached
 			ctx.cancel()
@@ -119,6 +138,21 @@ func ZZ_C16_cancel() {
 		// a resolver that observed the cancellation reports the context error for its field:
 		// that is the complete normal response of such a resolver
 		observedFull = len(m) == 3 && len(r.Errors) == 1 && r.Errors[0].Message == "context canceled"
+	}
+	if ownDeadline {
+		m, _ := r.Data.(map[string]interface{})
+		ok := len(m) == 3 && len(r.Errors) == 1 && r.Errors[0].Message == "backend call: context deadline exceeded" &&
+			len(r.Errors[0].Path) == 1 && r.Errors[0].Path[0] == "f"+string(rune('0'+point))
+		for k := 1; ok && k <= n; k++ {
+			if k == point {
+				ok = m["f"+string(rune('0'+k))] == nil
+			} else {
+				ok = m["f"+string(rune('0'+k))] == k
+			}
+		}
+		zzAssert(ok, "a field failing with its own deadline error while the request is alive: the complete response carries that field error")
+		zzCover("end")
+		return
 	}
 	zzAssert(isCtxErr || full || observedFull, "result is neither the context error nor the complete response")
 	if point >= 1 && point <= n && !observe && !errFirst {
